@@ -603,10 +603,38 @@ func c15R3R4(p *core.Program, r *core.Report, evalCWV, numCmp, dateCmp, textCmp 
 	if !r.Require("field_types", len(fieldTypes), 6) {
 		return
 	}
-	isValueType := func(v ssa.Value) bool {
+	isValueTypeCall := func(v ssa.Value) bool {
 		c, ok := v.(*ssa.Call)
 		return ok && c.Call.StaticCallee() != nil && c.Call.StaticCallee().Name() == "resolveValueType"
 	}
+	// the dispatch on the value type may sit in evaluateConditionWithValue itself or in a function of the package it
+	// hands the resolved type and the value to: then that function is analysed, its parameters standing for them
+	var vtParam, valParam *ssa.Parameter
+	for _, cs := range core.Calls(evalCWV, false) {
+		g := cs.Common().StaticCallee()
+		if g == nil || g.Blocks == nil || core.FuncPkgPath(g) != core.FuncPkgPath(evalCWV) || g == numCmp || g == dateCmp || g == textCmp {
+			continue
+		}
+		var vt, vv *ssa.Parameter
+		for i, a := range cs.Common().Args {
+			if i >= len(g.Params) {
+				break
+			}
+			if isValueTypeCall(a) {
+				vt = g.Params[i]
+			}
+			if prm, ok := a.(*ssa.Parameter); ok && prm.Parent() == evalCWV && core.ShortType(prm.Type()) == "any" {
+				vv = g.Params[i]
+			}
+		}
+		if vt != nil && vv != nil {
+			evalCWV, vtParam, valParam = g, vt, vv
+		}
+	}
+	isValueType := func(v ssa.Value) bool {
+		return isValueTypeCall(v) || (vtParam != nil && v == ssa.Value(vtParam))
+	}
+	_ = valParam
 	type disp struct {
 		asserted string
 		cmp      *ssa.Function
